@@ -589,6 +589,10 @@ fn check_pending(env: &Env, round: u32, w: &std::sync::Arc<CountWaker>, what: &s
     Ok(())
 }
 
+fn poll_after_done_unit() -> Result<(), Bad> {
+    Ok(())
+}
+
 fn poll_after_done(env: &Env) -> Option<Bad> {
     env.log.borrow().iter().find_map(|e| if let Ev::PollAfterDone { what, id } = e { Some(bad("poll-after-completion", format!("{what} {id} was polled again after it completed"))) } else { None })
 }
@@ -765,7 +769,7 @@ fn ready_until_ok(svc: &Svc, env: &Rc<Env>) -> Result<(), u64> {
     panic!("poll_ready never ready");
 }
 
-fn check_two_calls_inner(c: &SvcCase, order: TwoOrder, env: &Rc<Env>, svc: &Svc) -> Result<(), Bad> {
+fn check_two_calls_inner(c: &SvcCase, order: TwoOrder, env: &Rc<Env>, svc: &Svc, c12: bool) -> Result<(), Bad> {
     let first = c.tree.first_stage_leaf();
     env.order_sensitive.borrow_mut().insert(first);
     let (r1, r2) = (c.req, c.req + 2);
@@ -799,9 +803,29 @@ fn check_two_calls_inner(c: &SvcCase, order: TwoOrder, env: &Rc<Env>, svc: &Svc)
         let waker = w.waker();
         let mut cx = Context::from_waker(&waker);
         let f = if turn == 0 { &mut f1 } else { &mut f2 };
-        if let Poll::Ready(r) = f.as_mut().unwrap().as_mut().poll(&mut cx) {
-            res[turn] = Some(r);
-            *f = None;
+        match f.as_mut().unwrap().as_mut().poll(&mut cx) {
+            Poll::Ready(r) => {
+                res[turn] = Some(r);
+                *f = None;
+            }
+            Poll::Pending => {
+                if c12 {
+                    // Pending is only allowed while an inner future of *this* call is pending: one of
+                    // them must have been polled to Pending in this very poll and hold this waker
+                    let pend = env.pending.borrow();
+                    let mine: Vec<&(Waker, u32)> = pend.iter().filter(|(k, (_, r))| matches!(k, Key::Fut(..)) && *r == round).map(|(_, v)| v).collect();
+                    if mine.is_empty() {
+                        return Err(bad("call-future:pending-with-no-inner-polled-to-pending", format!("two calls outstanding, futures polled {:?}: the poll of call {} in round {round} returned Pending although none of its inner futures was polled to Pending in that poll", order, turn + 1)));
+                    }
+                    for (wk, _) in mine {
+                        let before = w.count();
+                        wk.wake_by_ref();
+                        if w.count() != before + 1 {
+                            return Err(bad("call-future:stale-waker", format!("two calls outstanding: the inner future that is pending after the poll of call {} does not hold the waker of that poll", turn + 1)));
+                        }
+                    }
+                }
+            }
         }
         if matches!(order, TwoOrder::AlternateFromFirst | TwoOrder::AlternateFromSecond) {
             turn = 1 - turn;
@@ -828,10 +852,10 @@ fn check_two_calls_inner(c: &SvcCase, order: TwoOrder, env: &Rc<Env>, svc: &Svc)
     Ok(())
 }
 
-fn check_two_calls(c: &SvcCase, order: TwoOrder) -> Result<(), Bad> {
+fn check_two_calls(c: &SvcCase, order: TwoOrder, c12: bool) -> Result<(), Bad> {
     let env = Env::new(c.scripts.clone(), vec![]);
     let svc = build(&c.tree, &env);
-    let r = match mcutil::quiet_catch(|| check_two_calls_inner(c, order, &env, &svc)) {
+    let r = match mcutil::quiet_catch(|| check_two_calls_inner(c, order, &env, &svc, c12)) {
         Ok(r) => r,
         Err(p) => Err(bad("panic", mcutil::panic_message(&*p))),
     };
@@ -1429,6 +1453,14 @@ fn check_factory_case_inner(c: &FacCase, c12: bool, verbose: bool, env: &Rc<Env>
         Err(p) => return Err(bad("panic", mcutil::panic_message(&*p))),
     };
     let mut stats = FacStats { pending_rounds: rounds - 1, init_failed: want.is_err() };
+    if c12 {
+        // the readiness gate of a factory future (apply_cfg_factory waits for the service it has
+        // built): an inner readiness error is reported, not swallowed
+        let ready_err = env.log.borrow().iter().find_map(|e| if let Ev::Ready { leaf, res: R::Err(e), round } = e { Some((*leaf, *e, *round)) } else { None });
+        if let (Some((leaf, e, round)), Ok(_)) = (ready_err, &got) {
+            return Err(bad("factory-future:readiness-error-swallowed", format!("while the factory future was being driven, the service it waits for (leaf {leaf}) answered poll_ready with Err({e}) in round {round}; the factory future resolved Ok all the same")));
+        }
+    }
     let got_news: Vec<(usize, u64)> = env.log.borrow().iter().filter_map(|e| if let Ev::New { id, cfg } = e { Some((*id, *cfg)) } else { None }).collect();
     if !c12 {
         // every invocation must be an expected one, at most once each
@@ -1628,11 +1660,14 @@ fn service_part(trees: &[T], options: &[Script], max_dev: usize, c12: bool, prop
                         }
                     }
                 }
-                if !c12 && req == 1 && scripts.iter().all(|s| s.ready_pend == 0 && !s.ready_err) {
+                if req == 1 && scripts.iter().all(|s| s.ready_pend == 0 && !s.ready_err && s.regress == 0) {
                     for order in TWO_ORDERS {
                         p.runs += 1;
                         p.two_call_runs += 1;
-                        if let Err(b) = check_two_calls(&c, order) {
+                        if let Err(b) = check_two_calls(&c, order, c12).and_then(|_| if c12 { poll_after_done_unit() } else { Ok(()) }) {
+                            if is_c12_sig(&b.0) != c12 && b.0 != "panic" {
+                                continue;
+                            }
                             let mut j = c.to_json();
                             j["two_calls"] = json!(format!("{:?}", order));
                             p.vio(prop, b, j);
@@ -1741,7 +1776,7 @@ fn run(args: &Args, c12: bool) -> i32 {
             match r["two_calls"].as_str() {
                 Some(o) => {
                     let order = TWO_ORDERS.into_iter().find(|x| format!("{:?}", x) == o).expect("order");
-                    check_two_calls(&c, order)
+                    check_two_calls(&c, order, c12)
                 }
                 None => check_service_case(&c, c12, true).map(|_| ()),
             }
@@ -1837,9 +1872,7 @@ fn run(args: &Args, c12: bool) -> i32 {
         }
     }
     rep.set("runs_taking_an_error_path", errors);
-    if !c12 {
-        rep.set("runs_with_two_calls_outstanding", two_call_runs);
-    }
+    rep.set("runs_with_two_calls_outstanding", two_call_runs);
     rep.set("states", rounds + runs);
     rep.set("transitions", rounds);
     rep.set("traces_validated_against_impl", runs);
